@@ -21,7 +21,7 @@ type evCount struct {
 	leaseCreated, leaseClosed   map[mtypes.LeaseID]int
 	depCreated, depClosed       map[uint64]int
 	depUpdated                  map[uint64]int
-	grpClosed, grpPaused, grpStarted map[uint64]int
+	grpClosed, grpPaused, grpStarted map[gk]int
 	prices                      map[string]sdk.Coin
 	undecodable                 int
 	total                       int
@@ -30,7 +30,7 @@ type evCount struct {
 func decodeEvents(evs sdk.Events) evCount {
 	c := evCount{orderCreated: map[mtypes.OrderID]int{}, orderClosed: map[mtypes.OrderID]int{}, bidCreated: map[mtypes.BidID]int{}, bidClosed: map[mtypes.BidID]int{},
 		leaseCreated: map[mtypes.LeaseID]int{}, leaseClosed: map[mtypes.LeaseID]int{}, depCreated: map[uint64]int{}, depClosed: map[uint64]int{}, depUpdated: map[uint64]int{},
-		grpClosed: map[uint64]int{}, grpPaused: map[uint64]int{}, grpStarted: map[uint64]int{}, prices: map[string]sdk.Coin{}}
+		grpClosed: map[gk]int{}, grpPaused: map[gk]int{}, grpStarted: map[gk]int{}, prices: map[string]sdk.Coin{}}
 	for _, raw := range evs {
 		c.total++
 		ev, err := sdkutil.ParseEvent(sdk.StringifyEvent(abci.Event(raw)))
@@ -79,16 +79,16 @@ func decodeEvents(evs sdk.Events) evCount {
 				c.depClosed[t.ID.DSeq]++
 			}
 		case dtypes.EventGroupClosed:
-			if t.ID.Owner == addr(0) && t.ID.GSeq == 1 {
-				c.grpClosed[t.ID.DSeq]++
+			if t.ID.Owner == addr(0) {
+				c.grpClosed[gk{t.ID.DSeq, int(t.ID.GSeq)}]++
 			}
 		case dtypes.EventGroupPaused:
-			if t.ID.Owner == addr(0) && t.ID.GSeq == 1 {
-				c.grpPaused[t.ID.DSeq]++
+			if t.ID.Owner == addr(0) {
+				c.grpPaused[gk{t.ID.DSeq, int(t.ID.GSeq)}]++
 			}
 		case dtypes.EventGroupStarted:
-			if t.ID.Owner == addr(0) && t.ID.GSeq == 1 {
-				c.grpStarted[t.ID.DSeq]++
+			if t.ID.Owner == addr(0) {
+				c.grpStarted[gk{t.ID.DSeq, int(t.ID.GSeq)}]++
 			}
 		default:
 			c.undecodable++
@@ -145,18 +145,20 @@ func checkEvents(pre, post state, evs sdk.Events, h int) {
 		if existed && !bytes.Equal(d0.Version, d1.Version) {
 			verif_Assert(c.depUpdated[dseq] == 1, "C16 a version change emits exactly one deployment-updated event")
 		}
-		g0, g1 := pre.grp[dseq], post.grp[dseq]
+	}
+	for key, g1 := range post.grp {
+		g0, existed := pre.grp[key]
 		if existed {
 			nonClosed0 := verif_And(g0.State != dtypes.GroupClosed, g0.State != dtypes.GroupInsufficientFunds)
 			closedNow := verif_And(verif_Or(g1.State == dtypes.GroupClosed, g1.State == dtypes.GroupInsufficientFunds), verif_Or(nonClosed0, g0.State != g1.State))
-			evExpect(c.grpClosed[dseq], closedNow, "C16 group closed iff a group-closed event for it is emitted")
+			evExpect(c.grpClosed[key], closedNow, "C16 group closed iff a group-closed event for it is emitted")
 			// a group can be paused and then closed by an escrow overdraft inside the same transaction:
 			// the paused event is then legitimate although the group does not end up paused
 			pausedNow := verif_And(g1.State == dtypes.GroupPaused, g0.State != dtypes.GroupPaused)
 			pausedThenClosed := verif_And(g0.State == dtypes.GroupOpen, closedNow)
-			verif_Assert(verif_Implies(pausedNow, c.grpPaused[dseq] == 1), "C16 a paused group emits exactly one group-paused event")
-			verif_Assert(verif_Implies(c.grpPaused[dseq] >= 1, verif_And(c.grpPaused[dseq] == 1, verif_Or(pausedNow, pausedThenClosed))), "C16 a group-paused event is emitted only for a group that was paused")
-			evExpect(c.grpStarted[dseq], verif_And(g1.State == dtypes.GroupOpen, g0.State != dtypes.GroupOpen), "C16 group started iff a group-started event for it is emitted")
+			verif_Assert(verif_Implies(pausedNow, c.grpPaused[key] == 1), "C16 a paused group emits exactly one group-paused event")
+			verif_Assert(verif_Implies(c.grpPaused[key] >= 1, verif_And(c.grpPaused[key] == 1, verif_Or(pausedNow, pausedThenClosed))), "C16 a group-paused event is emitted only for a group that was paused")
+			evExpect(c.grpStarted[key], verif_And(g1.State == dtypes.GroupOpen, g0.State != dtypes.GroupOpen), "C16 group started iff a group-started event for it is emitted")
 		}
 	}
 	verif_Assert((c.depUpdated[1] == 1) == (h == hUpdateDeployment), "C16 deployment-updated event iff an update-deployment message succeeded")
